@@ -48,6 +48,10 @@ type Plan struct {
 	Extend      int // blocks the honest chain grows by after initial sync
 	ReorgDepth  int // then a reorganisation of this depth (0 = none)
 	Announce    string
+	// FirstPeer, if >= 0, is the index of the peer the client reaches first:
+	// dials to all others are refused until that peer has received the
+	// client's first getheaders (i.e. it is the sync peer).
+	FirstPeer int
 }
 
 // PlanFromSeed derives a convergence scenario (pure function of seed, k).
@@ -72,8 +76,17 @@ func PlanFromSeed(seed int64, k int) Plan {
 	n := 1 + r.Intn(5)
 	kinds := []string{BStale, BLighter, BInvalidHdr, BLiar, BLiar, BSilent, BGarbage, BFlap, BNoCF, BNoWitness, BTrickle, BHonest}
 	p.Peers = append(p.Peers, PeerPlan{Kind: BHonest})
+	silent := 0
 	for i := 0; i < n; i++ {
 		pp := PeerPlan{Kind: kinds[r.Intn(len(kinds))]}
+		if pp.Kind == BSilent {
+			// Each silent peer that gets picked as sync peer costs a btcd
+			// stall timeout of 90-105 s: at most one per scenario.
+			silent++
+			if silent > 1 {
+				pp.Kind = BStale
+			}
+		}
 		switch pp.Kind {
 		case BStale:
 			pp.At = int32(r.Intn(p.ChainLen))
@@ -94,6 +107,19 @@ func PlanFromSeed(seed int64, k int) Plan {
 		p.ReorgDepth = 1 + r.Intn(8)
 	}
 	p.Announce = []string{"inv", "headers"}[r.Intn(2)]
+	p.FirstPeer = -1
+	if r.Intn(3) == 0 {
+		p.FirstPeer = r.Intn(len(p.Peers))
+	}
+	if k == 0 {
+		// A fixed scenario: the sync peer is an honest but STALE peer whose
+		// chain ends below the last header checkpoint.
+		p.ChainLen = 120
+		p.Checkpoints = []int32{100}
+		p.Peers = []PeerPlan{{Kind: BStale, At: 60}, {Kind: BHonest}}
+		p.FirstPeer = 0
+		p.Extend, p.ReorgDepth = 2, 0
+	}
 	return p
 }
 
@@ -186,6 +212,30 @@ func Build(p Plan) *Built {
 	return b
 }
 
+// GateFirstPeer enforces Plan.FirstPeer: call before starting the client, and
+// the returned function after it (it waits, bounded, for the first peer to be
+// asked for headers and then admits the others).
+func (b *Built) GateFirstPeer() func() {
+	fp := b.Plan.FirstPeer
+	if fp < 0 || fp >= len(b.W.Peers) {
+		return func() {}
+	}
+	first := b.W.Peers[fp]
+	for i, p := range b.W.Peers {
+		if i != fp {
+			b.W.Net.Refuse(p.Addr, true)
+		}
+	}
+	return func() {
+		// Peers that never get a getheaders (no services, garbage...) just
+		// time this wait out; the gate is steering, not an oracle.
+		WaitFor(3*time.Second, func() bool { return first.RxCount("getheaders") > 0 })
+		for _, p := range b.W.Peers {
+			b.W.Net.Refuse(p.Addr, false)
+		}
+	}
+}
+
 // StartBackground starts the flapping peers and the safety sampler: every
 // few milliseconds the public API is read and the reported best block is
 // validated against the generator's tree (C04 safety: never a best block off
@@ -274,6 +324,57 @@ func (b *Built) AwaitTip(n *chaingen.Node, deadline time.Duration) (ok bool, stu
 		time.Sleep(10 * time.Millisecond)
 	}
 	return false, time.Since(lastChange) > deadline/3, prev
+}
+
+// AwaitHonest waits until the client reports the honest tip, while the honest
+// chain keeps growing: every growEvery the honest peers extend their chain by
+// one block and announce it (a peer that is not the sync peer only gets asked
+// for headers when it announces something). Returns like AwaitTip; grown is
+// the number of blocks added.
+func (b *Built) AwaitHonest(deadline, growEvery time.Duration, announce string) (ok, stuck bool, last Snapshot, grown int) {
+	start := time.Now()
+	lastChange := start
+	lastGrow := start
+	prev := b.W.Sample()
+	for time.Since(start) < deadline {
+		s := b.W.Sample()
+		tip := b.Tip()
+		if s.Err == "" && s.BestHash == tip.Hash {
+			return true, false, s, grown
+		}
+		if s != prev {
+			lastChange = time.Now()
+			prev = s
+		}
+		if time.Since(lastGrow) >= growEvery {
+			lastGrow = time.Now()
+			nt := b.W.G.Extend(tip, 1, chaingen.PaceNormal)[0]
+			ann := announce
+			if grown%2 == 1 { // alternate the announcement style
+				if ann == "inv" {
+					ann = "headers"
+				} else {
+					ann = "inv"
+				}
+			}
+			b.SetHonestTip(nt, ann)
+			grown++
+		}
+		time.Sleep(10 * time.Millisecond)
+	}
+	return false, time.Since(lastChange) > deadline/3, prev, grown
+}
+
+// SilentPeers counts peers that never answer (each may cost one btcd stall
+// timeout, 30-45 s, when it happens to be chosen as sync peer).
+func (p Plan) SilentPeers() int {
+	n := 0
+	for _, pp := range p.Peers {
+		if pp.Kind == BSilent {
+			n++
+		}
+	}
+	return n
 }
 
 // Describe gives a short fingerprint of the plan's peer mix.
